@@ -468,6 +468,10 @@ def specialise(e, world):
                         return a.args[0]
                 if all(fn(a).startswith("kv_") for a in x.args[0].args):
                     return KEYERROR
+            if fn(x) in ("getitem", "get") and fn(x.args[0]) == "dict" and x.args[1] == sp.Symbol("None") and x.args[0].args \
+                    and all(fn(a).startswith("kv") for a in x.args[0].args):
+                # None is not a key of a table of names
+                return (x.args[2] if len(x.args) > 2 else sp.Symbol("None")) if fn(x) == "get" else KEYERROR
             if fn(x) in ("getitem", "get") and fn(x.args[0]) == "dict" and isinstance(x.args[1], sp.Tuple) and all(getattr(k_, "is_Symbol", False) and k_.name.startswith("'") for k_ in x.args[1]):
                 # lookup with a tuple of names as the key
                 for a in x.args[0].args:
